@@ -379,7 +379,7 @@ func (m *c10) OnDevSet(target string, q *DevReq) {
 		}
 		// no new change in a term before the applied configuration has been re-sent in that term
 		if _, _, isProp := taskProposal(q.Task); isProp {
-			if !m.termSync[target][q.Election] {
+			if !m.termSync[target][q.Election] && !s.Plan.Knobs.Persistent[target] {
 				s.Report("C10", "resync-first", "change-before-resync", fmt.Sprintf("device %s was sent a new change (%s) with election id %d before a re-synchronisation completed in that term (synchronised terms: %v)", target, q.Task, q.Election, keysU(m.termSync[target])))
 			}
 		} else if isResyncTask(q.Task) {
@@ -507,6 +507,9 @@ func (m *c04) AtQuiescence() {
 		}
 		if !s.connUp[t] {
 			s.Report("HARNESS", "c04", "not-connected", "device not connected at quiescence: "+t)
+		}
+		if s.Plan.Knobs.Persistent[t] {
+			continue // a persistent target is never re-synchronised (PERSISTED); its device is compared below all the same
 		}
 		if c.Status.State != configapi.ConfigurationStatus_SYNCHRONIZED || c.Status.Applied.Mastership.Term != c.Status.Mastership.Term {
 			// connected but never reported synchronized: a liveness problem of the re-synchronisation itself
@@ -738,6 +741,7 @@ func init() {
 					p.Sched.Starve = []string{"task:rec/configuration", "task:rec/configuration", "task:rec/proposal", "op/configurations/"}[g.pick(4)]
 				}
 			}
+			g.swarmExtras(p, true, true)
 			return p
 		},
 		Run: func(t *testing.T, plan *Plan) *Result { return runResync(t, plan, Profiles["C04"]) },
@@ -768,6 +772,7 @@ func init() {
 					p.Faults = append(p.Faults, Fault{Kind: k, Target: t, On: "during-devset", N: 1 + g.pick(8)})
 				}
 			}
+			g.swarmExtras(p, true, true)
 			return p
 		},
 		Arm: func(s *Sys) {
@@ -821,6 +826,7 @@ func init() {
 					}
 				}
 			}
+			g.swarmExtras(p, true, true)
 			return p
 		},
 		Arm: func(s *Sys) { s.Mon = append(s.Mon, &c11{s: s, seen: map[string][]string{}}) },
